@@ -55,3 +55,20 @@ def find_def(tree, qualname):
             return None
         body = node.body
     return node
+
+
+def bounded_unit(name, script, bound_text, timeout=300):
+    """A BOUNDED stand-in (never counted as discharged): runs a native
+    model-comparison script against the tree under test."""
+    def run(ctx):
+        r = run_replay(script, ctx, timeout)
+        st = {'ok': 'proved', 'failed': 'failed'}.get(r.get('status'),
+                                                      'error')
+        o = core.ob(name, st, 'bounded', 'cpython', 0.0, bounded=True,
+                    text=bound_text + ' (%s cases)' % r.get('cases'),
+                    detail=None if st == 'proved' else json.dumps(r)[:1500])
+        if st == 'failed':
+            o['replay'] = dict(status='failed', **{
+                k: v for k, v in r.items() if k != 'status'})
+        return [o]
+    return core.Unit(name, run, 'cpython-bounded')
